@@ -1086,6 +1086,7 @@ func runC09(w *World) *Result {
 	c09Merge(w, r, "R-C09-merge")
 	c09Prefix(w, r)
 	PrefixDigestRule(w, r, "R-C09-prefix", nil)
+	c09PrefixApplied(w, r, "R-C09-prefix")
 	c07Public(w, cf, r, "R-C09-public")
 	c07Predicate(w, r, "R-C09-public")
 	return r
@@ -2509,5 +2510,96 @@ func c09MergeComplete(w *World, r *Result, rule string) {
 	}
 	if n == 0 {
 		r.Bad(rule, "mergeall:none", "-", "no place found where a parser for an imported file is created")
+	}
+}
+
+// c09PrefixApplied: a file-level definition is stored under the file's prefix whenever the
+// definition is global: where the stored name of a new variable is a choice between the
+// raw name and the prefixed name, the choice is controlled by the very value that is passed
+// on as the definition's "global" flag – not by a narrower condition (public only), which
+// would leave private globals of an imported file unprefixed, i.e. in the importer's
+// name space.
+func c09PrefixApplied(w *World, r *Result, rule string) {
+	ppkg := w.Pkgs["parser"].Types
+	var cfG *ssa.Function
+	if cf, err := buildCtxFacts(w); err == nil {
+		cfG = cf.globalQ
+	}
+	n := 0
+	for _, fn := range w.Funcs("parser") {
+		perFn := 0
+		for _, b := range fn.Blocks {
+			for _, ins := range b.Instrs {
+				c, ok := ins.(*ssa.Call)
+				if !ok {
+					continue
+				}
+				callee := c.Call.StaticCallee()
+				if callee == nil || pkgOf(callee) != ppkg || callee.Signature.Recv() != nil || callee.Signature.Results().Len() != 1 || !isNamed(callee.Signature.Results().At(0).Type(), "Variable") {
+					continue
+				}
+				// name argument that is a choice between raw and prefixed
+				var namePhi *ssa.Phi
+				for _, a := range c.Call.Args {
+					if ph, ok := a.(*ssa.Phi); ok && isString(ph.Type()) {
+						for _, e := range ph.Edges {
+							if pc, ok := e.(*ssa.Call); ok && pc.Call.StaticCallee() != nil && pkgOf(pc.Call.StaticCallee()) == ppkg && len(pc.Call.Args) == 2 && isString(pc.Type()) {
+								namePhi = ph
+							}
+						}
+					}
+				}
+				if namePhi == nil {
+					continue
+				}
+				// the bool arguments handed to the constructor
+				var flags []ssa.Value
+				for _, a := range c.Call.Args {
+					if isBool(a.Type()) {
+						flags = append(flags, a)
+					}
+				}
+				n++
+				perFn++
+				key := fmt.Sprintf("prefix:applied:%s#%d", FuncName(fn), perFn)
+				// the condition selecting the prefixed edge
+				var cond ssa.Value
+				for i, e := range namePhi.Edges {
+					if _, isCall := e.(*ssa.Call); !isCall {
+						continue
+					}
+					pred := namePhi.Block().Preds[i]
+					for d := pred; d != nil; d = d.Idom() {
+						p := d.Idom()
+						if p == nil {
+							break
+						}
+						cc, _ := condOf(p)
+						if cc != nil && ((p.Succs[0].Dominates(pred) && len(p.Succs[0].Preds) == 1) || p.Succs[0] == pred) && !namePhi.Block().Dominates(p) && p.Dominates(namePhi.Block()) {
+							cond = cc
+							break
+						}
+					}
+				}
+				// the flag that says "defined at file level": the result of the context's global-scope query
+				same := false
+				for _, f := range flags {
+					if fc, ok := f.(*ssa.Call); ok && cfG != nil && fc.Call.StaticCallee() == cfG && f == cond {
+						same = true
+					}
+				}
+				switch {
+				case cond == nil:
+					r.Bad(rule, key, w.Pos(c.Pos()), "cannot find the condition under which the new variable's name receives the file prefix")
+				case !same:
+					r.Bad(rule, key, w.Pos(c.Pos()), "the file prefix is applied under a condition ("+cond.String()+") that is not the global flag stored in the variable: some file-level variables (e.g. the private ones) keep their bare name and share the importer's name space")
+				default:
+					r.Ok(rule, key, w.Pos(c.Pos()), "the stored name carries the file prefix exactly when the variable is stored as global")
+				}
+			}
+		}
+	}
+	if n == 0 {
+		r.Bad(rule, "prefix:applied:none", "-", "no variable definition with an optional file prefix found")
 	}
 }
